@@ -335,7 +335,7 @@ def shard(arg):
 
 def run(ctx):
     nsh = 16
-    per = ctx.n(1200, 36000)
+    per = ctx.n(1200, 24000)
     res = Result()
     for r in pmap('harness.props.c17', 'shard', [(ctx.seed, i, per) for i in range(nsh)]):
         res.merge(r)
